@@ -5,6 +5,7 @@ import (
 	"context"
 	"fmt"
 	"math/big"
+	"strings"
 
 	ledger "github.com/formancehq/ledger/internal"
 	"github.com/formancehq/stack/libs/go-libs/metadata"
@@ -417,7 +418,15 @@ var zzC07Shapes = [][]int{
 	// plus a third request without a key whose transaction *reference* equals the key
 	{zzKCreateScript, zzKCreateScript, zzKInterferer},
 	{zzKSetAccountMeta, zzKSetAccountMeta, zzKInterferer},
+	// keys at the length the log table's column can hold, and one byte more
+	{zzKCreateScript, zzKCreateScript, zzKLongKey255},
+	{zzKCreateScript, zzKCreateScript, zzKLongKey256},
 }
+
+const (
+	zzKLongKey255 = 255
+	zzKLongKey256 = 256
+)
 
 const zzKInterferer = 101
 
@@ -430,6 +439,10 @@ func ZZ_C07Desc(i int) string {
 			s += " + a create without a key whose reference equals the key"
 			continue
 		}
+		if k == zzKLongKey255 || k == zzKLongKey256 {
+			s += fmt.Sprintf(" (key of %d bytes)", k)
+			continue
+		}
 		s += " " + zzKindNames[k]
 	}
 	return s
@@ -440,22 +453,27 @@ func ZZ_C07(shape int) {
 	kinds := zzC07Shapes[shape]
 	w, _, _, _, N := zzConcWorld(false)
 	amt := zzPosAmt("amt")
+	key := "the-key"
+	if last := kinds[len(kinds)-1]; last == zzKLongKey255 || last == zzKLongKey256 {
+		key = strings.Repeat("k", last)
+		kinds = kinds[:len(kinds)-1]
+	}
 	ops := make([]zzOp, len(kinds))
 	for i, k := range kinds {
-		ops[i] = zzOp{Kind: k, Amt: amt, Target: N, IK: "the-key", Tag: "same"}
+		ops[i] = zzOp{Kind: k, Amt: amt, Target: N, IK: key, Tag: "same"}
 		if k == zzKInterferer {
-			ops[i] = zzOp{Kind: zzKCreateScript, Amt: zzPosAmt("amt_other"), Ref: "the-key", Tag: "other"}
+			ops[i] = zzOp{Kind: zzKCreateScript, Amt: zzPosAmt("amt_other"), Ref: key, Tag: "other"}
 		}
 	}
 	res := zzRunClients(w, ops, "")
 	verifhook.Reach("quiescent")
 	// retry after a stop/crash and restart
 	w2 := zzRestart(w)
-	res2 := zzRunClients(w2, []zzOp{{Kind: kinds[0], Amt: amt, Target: N, IK: "the-key", Tag: "same"}}, "r")
+	res2 := zzRunClients(w2, []zzOp{{Kind: kinds[0], Amt: amt, Target: N, IK: key, Tag: "same"}}, "r")
 	verifhook.Reach("retried")
 	withKey := 0
 	for _, l := range w.store.Logs()[1:] {
-		if l.IdempotencyKey == "the-key" {
+		if l.IdempotencyKey == key {
 			withKey++
 		}
 	}
@@ -486,9 +504,12 @@ type zzC11Shape struct {
 	N       int
 	World   bool
 	Preview bool
+	Ref     string // the reference the requests share ("" = ref-1)
 }
 
-var zzC11Shapes = []zzC11Shape{{2, false, false}, {3, false, false}, {2, true, false}, {2, true, true}, {2, false, true}}
+var zzC11Shapes = []zzC11Shape{{2, false, false, ""}, {3, false, false, ""}, {2, true, false, ""}, {2, true, true, ""}, {2, false, true, ""},
+	// references a client may send with white space around them, or with odd characters
+	{2, false, false, " ref-1"}, {2, true, false, "ref-1\t"}, {2, false, false, "réf/1?x=&y"}}
 
 func ZZ_C11N() int { return len(zzC11Shapes) }
 
@@ -499,6 +520,10 @@ func ZZ_C11Desc(i int) string {
 // ZZ_C11: a transaction reference is committed at most once.
 func ZZ_C11(shape int) {
 	sh := zzC11Shapes[shape]
+	ref := sh.Ref
+	if ref == "" {
+		ref = "ref-1"
+	}
 	w, _, _, _, _ := zzConcWorld(false)
 	src := ""
 	if sh.World {
@@ -506,17 +531,17 @@ func ZZ_C11(shape int) {
 	}
 	var ops []zzOp
 	for i := 0; i < sh.N; i++ {
-		ops = append(ops, zzOp{Kind: zzKCreateScript, Amt: zzPosAmt(fmt.Sprintf("amt%d", i)), Ref: "ref-1", Src: src, Tag: fmt.Sprintf("t%d", i)})
+		ops = append(ops, zzOp{Kind: zzKCreateScript, Amt: zzPosAmt(fmt.Sprintf("amt%d", i)), Ref: ref, Src: src, Tag: fmt.Sprintf("t%d", i)})
 		if sh.Preview && i == 0 {
-			ops = append(ops, zzOp{Kind: zzKCreateScript, Amt: zzPosAmt("amt_preview"), Ref: "ref-1", Src: src, Tag: "preview", DryRun: true})
+			ops = append(ops, zzOp{Kind: zzKCreateScript, Amt: zzPosAmt("amt_preview"), Ref: ref, Src: src, Tag: "preview", DryRun: true})
 		}
 	}
 	res := zzRunClients(w, ops, "")
 	verifhook.Reach("quiescent")
-	later := zzRunClients(w, []zzOp{{Kind: zzKCreateScript, Amt: zzPosAmt("amt_late"), Ref: "ref-1", Tag: "late"}}, "l")
+	later := zzRunClients(w, []zzOp{{Kind: zzKCreateScript, Amt: zzPosAmt("amt_late"), Ref: ref, Tag: "late"}}, "l")
 	withRef := 0
 	for _, t := range w.store.Transactions()[1:] {
-		if t.Reference == "ref-1" {
+		if t.Reference == ref {
 			withRef++
 		}
 	}
